@@ -117,7 +117,7 @@ def run_property(pid, tier, seed, module_name=None):
     cap_s = TIER_CAP[tier] * float(os.environ.get('VERIF_TIME_SCALE', '1'))
     known = load_known()
     total = explore.Agg(); job_reports = []; failed_families = set(); inconclusive = []
-    all_viol = []; canary_ok = {}
+    all_viol = []; canary_ok = {}; precomputed = {}
     funcs = set()
     for job in jobs:
         elapsed = time.time() - t0
@@ -131,7 +131,18 @@ def run_property(pid, tier, seed, module_name=None):
         budget = min(job.budget_s, remaining)
         tj = time.time()
         try:
-            agg = explore.explore(job.fn, job.params, budget_s=budget, seed=seed, chunk=job.chunk)
+            if id(job) in precomputed:
+                agg = precomputed[id(job)]
+            elif getattr(job, 'small', False):
+                # batch this and the following small jobs: one whole job per worker
+                idx = jobs.index(job); batch = []
+                while idx < len(jobs) and getattr(jobs[idx], 'small', False) and len(batch) < 64:
+                    batch.append(jobs[idx]); idx += 1
+                res = explore.explore_many([(b.fn, b.params, min(b.budget_s, remaining)) for b in batch], seed=seed)
+                for b, (a, w) in zip(batch, res): precomputed[id(b)] = a
+                agg = precomputed[id(job)]
+            else:
+                agg = explore.explore(job.fn, job.params, budget_s=budget, seed=seed, chunk=job.chunk)
         except Exception as e:
             agg = explore.Agg(); agg.incomplete = True
             agg.errors.append('explore failed: ' + ''.join(traceback.format_exception(type(e), e, e.__traceback__))[-1500:])
